@@ -262,7 +262,7 @@ def h_step_info(sym):
     cf = MiniCF(10 if v2 else 1)
     toc, finished = Toc(), []
     hit = sbool(sym, 'cache_hit')
-    cached = {'cg': {'cn': object()}}
+    cached = {'cg': {'cn': KINDS[kind][0]()}}       # a cached table of this port's own element class
     cache = MissCache(cached if hit else None)
     f, port = mk_fetcher(cf, kind, v2, toc, finished, cache)
     f.state = GET_TOC_INFO
